@@ -23,8 +23,16 @@ R1  species-axis agreement (T-AGREE): the sequence whose position supplies the
     S)`, `S.index(x)`, in the function itself, its closures and the methods
     its dispatch table hands over to; a parameter is traced through callers
     (also `table[key](…)` calls) and properties; an untraceable source is
-    undecided, never a violation.  R1b the same for the thrust-mode axis.
-    R1c the index variables are used in the subscript in dimension order.
+    undecided, never a violation.  A whole row moved at once counts too:
+    `var[index, :] = V` positions by the comprehension that builds V
+    (`[val[tm] for tm in S]` -> S) or else by V itself (`list(val.values())`:
+    the mapping's own order, not the axis'), `zip(S, var[index])` labels a row
+    read with S; which axis a slice runs along is read from the dimension
+    combinations whose arm holds the statement.  R1b the same for the
+    thrust-mode axis.  R1c the index variables are used in the subscript in
+    dimension order - through chained subscripts and locals that hold one
+    record (`cell = var[index]` … `cell[si, ti]`) - and a position is the
+    position variable itself, not an expression of it (`si + 1`).
     R1d (value flow) the species list handed to the writer / reader is the
     `.species` of the very file object that owns the variable: both
     arguments are resolved with Flow (hoisted, items()-iterated, passed
@@ -37,6 +45,9 @@ R2  absent <-> skipped agreement.  Writer: walked with the value None and
     the value (to a default, an empty array) and writes is the mistake
     "unset stored as <that>".  A test of the value that is not understood is
     undecided; callers that only pass set values discharge the obligation.
+    Only None counts as unset: walked with a value that is set, no way ends
+    before a write under a test of the value's truthiness or its equality
+    with a constant (`if not val`: 0, 0.0, an empty mapping).
     Reader: for the arms where the writer can leave a cell unwritten, the
     conditions that decide what is handed back are collected (guards of
     `return None` incl. guard clauses spelled the other way round and
@@ -44,7 +55,12 @@ R2  absent <-> skipped agreement.  Writer: walked with the value None and
     the element stores of the loop, that builds the outermost mapping
     returned) and resolved with Flow: one of them must test a never-written
     marker (fill value / emptiness / mask) at the level of the species
-    entries.  R2b the marker must not be met by a storable value.
+    entries; a helper counts for what it returns (a fill value memoised on
+    the store is not the variable's own), a test of a container built in the
+    arm (`if modes:`) for the markers tested where it is filled, a pipeline of
+    comprehensions for the `if`s of all its stages.  R2b the marker must not
+    be met by a storable value; a length marker tests emptiness only
+    (`len(v) > 1` drops one-point arrays).
 R3  case-table exhaustiveness: the legal dimension combinations are derived
     from Dimensions.__init__.  Each of the four dispatching functions (empty,
     convert_in, writer, reader) is partially evaluated for every truth
@@ -61,10 +77,33 @@ R4  digest completeness: every FieldMetadata field enters digest_info;
     FieldSet.digest covers the name and all fields in sorted order; the
     variable attributes written at creation are the ones read back by
     from_netcdf_group.
-R5  hash gate: a NcFiles value is only returned on paths that passed the
-    digest comparison; the raise is guarded by the mismatch and, at most, by
-    `not force_fieldset_matches` (conjuncts and flag locals resolved); the
-    check loop runs over every (name, hash) pair of the file.
+R5  hash gate.  For each function that opens an existing file: on every way
+    from the entry to a `return` of a value (the NcFiles description; forward
+    dataflow over the CFG, exceptional edges included, so a refusal that a
+    handler swallows does not count) every stored digest has been compared
+    with the registry's digest for the same name, and a mismatch has raised
+    or met `force_fieldset_matches`.  "Compared" is decided by value flow, not
+    by shape: a *check loop* is a `for` whose passes are the file's (name,
+    hash) pairs - zip / enumerate + index / range(len) / dict(zip).items() /
+    a precomputed list of registry digests, over the whole `fieldset_names`
+    and `fieldset_hashes` attributes (single string wrapped, getattr, reading
+    helper, NamedTuple field) - in which every way through one pass
+    (iteration_paths) that does not raise has established `registry digest of
+    this pair's name == this pair's hash` or the force flag (conditions judged
+    with and/or/not, flag locals, parameters bound at the call); a pass that
+    ends the loop early needs the force flag.  Also accepted: refusal deferred
+    through a flag / list the passes record into and a later test consults;
+    `any()/all()/next()`/filtered comprehension over all pairs as the test, or
+    a loop over that collection (a generator helper counts as the
+    comprehension it stands for); the gate, or the predicate, in a resolved
+    helper of any module (parameters bound to the caller's resolved
+    arguments; every normal exit of the helper must have passed the gate).
+    Violations name the construct: a pass that goes on silently (warn only,
+    inverted flag, wrong hash / wrong name / digest compared with itself or
+    truncated, skip of unknown names, extra conjunct), a sliced pair list, an
+    early end of the loop, a return that bypasses the gate (conditional gate,
+    swallowed refusal, helper that returns early), no comparison at all.  A
+    digest comparison in a form that is not analysed is undecided.
 R6  the writer writes, and the reader reads, at the record index it is given.
     By value flow, for the call of the writer in `_write_data` and of the
     reader in `_load_trajectory`: variable, field definition, name argument
@@ -486,6 +525,41 @@ class Flow:
         return out or None
 
 
+def record_field(prog, fi, e):
+    """A for `Rec(…, f=A, …).f` / `Rec(A, …).f` where Rec is a class of the repository whose constructor is made from
+    its annotated fields (NamedTuple, dataclass: no __init__ of its own); None for anything else"""
+    if not (isinstance(e, ast.Attribute) and isinstance(e.value, ast.Call)):
+        return None
+    c = e.value
+    if any(isinstance(a, ast.Starred) for a in c.args) or any(k.arg is None for k in c.keywords):
+        return None
+    cls_ = resolve_class_call(prog, fi, c) if prog is not None else None
+    if cls_ is None or cls_.find_method('__init__') is not None or cls_.find_method('__new__') is not None:
+        return None
+    fields = list(cls_.all_fields())
+    if e.attr not in fields:
+        return None
+    v = kwarg(c, e.attr)
+    if v is not None:
+        return v
+    i = fields.index(e.attr)
+    return c.args[i] if i < len(c.args) else None
+
+
+def project_records(prog, fi, e):
+    """e with every `Rec(…).field` replaced by the constructor argument of that field"""
+    for _ in range(4):
+        m = {}
+        for x in ast.walk(e):
+            v = record_field(prog, fi, x)
+            if v is not None:
+                m[id(x)] = v
+        if not m:
+            return e
+        e = _rebuild(e, m)
+    return e
+
+
 def property_of(prog, fi, e):
     """the property method read by attribute expression e: through the class of the receiver when that resolves,
     else the only property of that name in the program"""
@@ -832,6 +906,7 @@ def rule_axis(ctx, m, arms=None):
         return None
 
     sites = {'species': [], 'thrust_mode': []}
+    top_of = {f_.qualname: top for top in (wr, rd) for f_ in scopes_of(top, arms)}
     for role, fi in [(r_, f_) for r_, top in (('writer', wr), ('reader', rd)) for f_ in scopes_of(top, arms)]:
         for ivar, evar, src, node in _enumerates(fi.node):
             cl = classify_axis_source(prog, fi, src)
@@ -852,6 +927,11 @@ def rule_axis(ctx, m, arms=None):
                 ctx.undecided('C03-R1', fi, norm(node), f'cannot tell which axis {norm(src)} enumerates' if ax is None else
                               f'cannot trace where {norm(src)} comes from: {cl[8:]}')
             sites[ax].append((role, fi, cl, node, ivar))
+        # whole-row transfers: `var[index, :] = V` lays V out along the axis in V's own order; `zip(S, var[index])`
+        # labels what was read with the members of S
+        for ax, src, node in _row_transfers(ctx, prog, fi, top_of[fi.qualname], arms):
+            cl = classify_axis_source(prog, fi, src)
+            sites[ax].append((role, fi, cl, node, ':'))
     ctx.floor('C03-R1/species', len(sites['species']), 4, 'species-axis enumerations in writer+reader')
     ctx.floor('C03-R1b/thrust', len(sites['thrust_mode']), 4, 'thrust-mode enumerations in writer+reader')
     for ax, rule in (('species', 'C03-R1'), ('thrust_mode', 'C03-R1b')):
@@ -870,21 +950,132 @@ def rule_axis(ctx, m, arms=None):
 
     # R1c subscript order
     for role, fi in [(r_, f_) for r_, top in (('writer', wr), ('reader', rd)) for f_ in scopes_of(top, arms)]:
-        sp_vars = {iv for r, f, cl, n, iv in sites['species'] if f is fi}
-        tm_vars = {iv for r, f, cl, n, iv in sites['thrust_mode'] if f is fi}
+        sp_vars = {iv for r, f, cl, n, iv in sites['species'] if f is fi} - {':'}
+        tm_vars = {iv for r, f, cl, n, iv in sites['thrust_mode'] if f is fi} - {':'}
         vnames, inames = variable_params(fi)
+        # a local that holds one record (or row) of the variable: its subscripts go on where that one stopped
+        views = {}
+        for nm in {x.id for x in ast.walk(fi.node) if isinstance(x, ast.Name) and isinstance(x.ctx, ast.Store)}:
+            v = single_def_value(fi.node, nm)
+            if isinstance(v, ast.Subscript) and isinstance(v.value, ast.Name) and v.value.id in vnames:
+                views[nm] = list(v.slice.elts) if isinstance(v.slice, ast.Tuple) else [v.slice]
         for n in ast.walk(fi.node):
-            if isinstance(n, ast.Subscript) and isinstance(n.value, ast.Name) and n.value.id in vnames \
-                    and isinstance(n.slice, ast.Tuple):
-                idx = [norm(x) for x in n.slice.elts]
+            elts = None
+            par = getattr(n, '_parent', None)
+            if isinstance(n, ast.Subscript) and not (isinstance(par, ast.Subscript) and par.value is n):
+                # the outermost subscript of a chain `var[index][si, ti]` / `record[si]`: positions inner to outer
+                chain, b = [], n
+                while isinstance(b, ast.Subscript):
+                    chain.insert(0, list(b.slice.elts) if isinstance(b.slice, ast.Tuple) else [b.slice])
+                    b = b.value
+                if isinstance(b, ast.Name) and (b.id in vnames or b.id in views):
+                    elts = list(views.get(b.id, [])) + [x for part in chain for x in part]
+                    if any(isinstance(x, ast.Slice) for x in elts[:-1]) and len(chain) + (b.id in views) > 1:
+                        elts = None         # a slice in the middle of a chain re-bases what follows: not judged
+            if elts is not None and len(elts) >= 2:
+                idx = [norm(x) for x in elts]
                 used_sp = [i for i, x in enumerate(idx) if x in sp_vars]
                 used_tm = [i for i, x in enumerate(idx) if x in tm_vars]
                 ok = idx[0] in inames and (not used_sp or used_sp == [1]) and \
                     (not used_tm or used_tm == [len(idx) - 1]) and \
                     (not (used_sp and used_tm) or used_sp[0] < used_tm[0])
-                ctx.ob('C03-R1c', fi, f'{role} subscript var[{", ".join(idx)}]', ok,
-                       'record, species, thrust-mode in dimension order' if ok else
-                       'index variables are not in the order of the variable\'s dimensions', line=n.lineno)
+                # a position that is computed from a position variable (`si + 1`) is not the member's position
+                shifted = [x for i, (x, e_) in enumerate(zip(idx, elts)) if i >= 1 and x not in sp_vars | tm_vars
+                           and not isinstance(e_, ast.Slice)
+                           and any(isinstance(y, ast.Name) and y.id in sp_vars | tm_vars for y in ast.walk(e_))]
+                ctx.ob('C03-R1c', fi, f'{role} subscript var[{", ".join(idx)}]', ok and not shifted,
+                       'record, species, thrust-mode in dimension order' if ok and not shifted else
+                       (f'`{shifted[0]}` is not the position of the member on its axis (shifted / recomputed)' if ok else
+                        'index variables are not in the order of the variable\'s dimensions'), line=n.lineno)
+
+
+def _full_slice(x) -> bool:
+    return isinstance(x, ast.Slice) and x.lower is None and x.upper is None and x.step is None
+
+
+def _axes_at(stmt, top, arms):
+    """the axes (after the record axis) of the variable where `stmt` runs: ['species', 'thrust_mode'] filtered by the
+    dimension combinations whose arm holds the statement; None when the arms disagree or none holds it"""
+    if not arms or top.qualname not in arms:
+        return None
+    dims, cov, table = arms[top.qualname]
+    found = set()
+    for row, arm in table.items():
+        if any(x is stmt for x in arm.walk()):
+            combo = dict(zip(dims, row))
+            found.add(tuple(a for a, d in (('species', 'SPECIES'), ('thrust_mode', 'THRUST_MODE')) if combo.get(d)))
+    return list(found.pop()) if len(found) == 1 else None
+
+
+def _row_transfers(ctx, prog, fi, top, arms):
+    """[(axis, sequence that orders the row, node)] for every transfer of a whole row of the NetCDF variable in fi:
+    a store `var[index, …, :] = V` (a full slice at an axis) - the order is that of the comprehension that builds V
+    (`[val[tm] for tm in S]` -> S), else V's own (`list(val.values())`: the mapping's insertion order); a read that
+    is paired with labels by `zip(S, var[index, …])`."""
+    out = []
+    vnames, inames = variable_params(fi)
+    fl = Flow(prog, fi)
+
+    def fake(src, at):
+        return ast.copy_location(ast.Call(func=ast.Name(id='enumerate', ctx=ast.Load()), args=[src], keywords=[]), at)
+
+    def is_var_read(e, at, depth=0):
+        while True:
+            if isinstance(e, ast.Call) and isinstance(e.func, ast.Attribute) and e.func.attr in ('tolist', 'flatten', 'ravel') \
+                    and not e.args:
+                e = e.func.value
+            elif isinstance(e, ast.Call) and call_name(e) in ('list', 'tuple', 'np.asarray', 'np.array', 'iter') and len(e.args) == 1:
+                e = e.args[0]
+            else:
+                break
+        if isinstance(e, ast.Subscript) and isinstance(e.value, ast.Name) and e.value.id in vnames:
+            return e
+        if isinstance(e, ast.Name) and depth < 3 and at is not None and e.id not in vnames:
+            rs = [is_var_read(a, None, depth + 1) for a in fl.alts(e, at)]
+            if rs and all(r is not None for r in rs):
+                return rs[0]
+        return None
+    for s in walk_no_nested(fi.node):
+        if isinstance(s, ast.Assign):
+            for t in s.targets:
+                if not (isinstance(t, ast.Subscript) and isinstance(t.value, ast.Name) and t.value.id in vnames
+                        and isinstance(t.slice, ast.Tuple)):
+                    continue
+                pos = [i for i, x in enumerate(t.slice.elts) if _full_slice(x)]
+                if not pos:
+                    continue
+                axes = _axes_at(s, top, arms)
+                if axes is None or any(p_ < 1 or p_ - 1 >= len(axes) for p_ in pos):
+                    ctx.undecided('C03-R1', fi, norm(t)[:60], 'cannot tell which axis of the variable the slice runs along')
+                v = s.value
+                for p_ in pos:
+                    alts = fl.alts(v, s) if v is not None else []
+                    x = alts[0] if len(alts) == 1 else v
+                    while isinstance(x, ast.Call) and x.args and not x.keywords and call_name(x) in (
+                            'np.array', 'np.asarray', 'numpy.array', 'numpy.asarray', 'list', 'tuple'):
+                        x = x.args[0]
+                    if isinstance(x, (ast.ListComp, ast.GeneratorExp)) and len(x.generators) == 1 \
+                            and not x.generators[0].ifs:
+                        out.append((axes[p_ - 1], x.generators[0].iter, fake(x.generators[0].iter, t)))
+                        v = x.elt           # the next slice runs along the rows of the elements
+                    else:
+                        out.append((axes[p_ - 1], s.value if x is None else x, fake(x if x is not None else s.value, t)))
+                        v = None
+    for c in calls_in(fi.node):
+        if call_name(c) == 'zip' and len(c.args) == 2 and not any(isinstance(a, ast.Starred) for a in c.args):
+            at = stmt_of(c)
+            for lab, cells in ((c.args[0], c.args[1]), (c.args[1], c.args[0])):
+                r = is_var_read(cells, at)
+                if r is None or is_var_read(lab, at) is not None:
+                    continue
+                axes = _axes_at(at, top, arms)
+                n_idx = len(r.slice.elts) if isinstance(r.slice, ast.Tuple) else 1
+                given = [x for x in (r.slice.elts if isinstance(r.slice, ast.Tuple) else [r.slice]) if not _full_slice(x)]
+                if axes is None or len(given) - 1 >= len(axes) or len(given) < 1:
+                    ctx.undecided('C03-R1', fi, norm(c)[:60], 'cannot tell which axis of the variable the row read runs along')
+                out.append((axes[len(given) - 1], lab, fake(lab, c)))
+                break
+    return out
 
 
 # ---------------------------------------------------------------- R3 -----
@@ -1019,6 +1210,22 @@ class Dispatch:
             return _OPQ if v is None else self.ev(v, env, depth + 1)
         if isinstance(e, ast.NamedExpr):
             return self.ev(e.value, env, depth + 1)
+        if isinstance(e, ast.Attribute) and isinstance(e.value, ast.Name) and self.prog is not None:
+            # a field of a record built from the flags: `shape = Shape(species=…, …)` … `shape.species`
+            rec = self._local_value(e.value.id)
+            if isinstance(rec, ast.Call):
+                v = record_field(self.prog, self.fi, ast.Attribute(value=rec, attr=e.attr, ctx=ast.Load()))
+                return _OPQ if v is None else self.ev(v, env, depth + 1)
+        if isinstance(e, ast.Call) and self.prog is not None and (e.args or e.keywords):
+            # the record itself (a NamedTuple is a tuple of its fields)
+            cls_ = resolve_class_call(self.prog, self.fi, e)
+            if cls_ is not None and cls_.find_method('__init__') is None and \
+                    any('NamedTuple' in b for c in cls_.mro() for b in c.base_exprs):
+                vs = [record_field(self.prog, self.fi, ast.Attribute(value=e, attr=f, ctx=ast.Load()))
+                      for f in cls_.all_fields()]
+                if all(v is not None for v in vs):
+                    rs = [self.ev(v, env, depth + 1) for v in vs]
+                    return _OPQ if any(r is _OPQ for r in rs) else tuple(rs)
         if isinstance(e, ast.UnaryOp) and isinstance(e.op, ast.Not):
             v = self.ev(e.operand, env, depth + 1)
             return (not v) if isinstance(v, bool) else _OPQ
@@ -1438,6 +1645,88 @@ def none_outcomes(fn, vparam, fparam, varparam, required):
     return out
 
 
+def falsy_skips(fn, vparam, varparam):
+    """Walk the writer with a value that is set (not None): `val is None` is false, every other test is explored both
+    ways.  -> [(test, node)] for the ways that end (return / raise / end of the function) before anything is written
+    after taking a branch on a test that a set value can meet by being falsy or equal to a constant: the truthiness
+    of the value (`not val`, `val`, `bool(val)`) or its comparison with a constant other than None (`val == 0`).
+    Other tests of the value (isinstance, len, membership) are not judged."""
+    out = []
+
+    def is_v(x):
+        return isinstance(x, ast.Name) and x.id == vparam
+
+    def ev(e, depth=0):
+        """(truth value for a set value | None, the sub-test that is a truthiness / constant test of the value | None)"""
+        if isinstance(e, ast.UnaryOp) and isinstance(e.op, ast.Not):
+            v, f = ev(e.operand, depth)
+            return (None if v is None else not v), f
+        if isinstance(e, ast.BoolOp):
+            rs = [ev(v, depth) for v in e.values]
+            vs = [v for v, _ in rs]
+            f = next((f_ for _, f_ in rs if f_ is not None), None)
+            if isinstance(e.op, ast.And):
+                v = False if any(x is False for x in vs) else (True if all(x is True for x in vs) else None)
+            else:
+                v = True if any(x is True for x in vs) else (False if all(x is False for x in vs) else None)
+            return v, (f if v is None else None)
+        if isinstance(e, ast.Compare) and len(e.ops) == 1:
+            l, r = e.left, e.comparators[0]
+            for x, y in ((l, r), (r, l)):
+                if is_v(x) and isinstance(y, ast.Constant):
+                    if y.value is None:
+                        if isinstance(e.ops[0], (ast.Is, ast.Eq)):
+                            return False, None
+                        if isinstance(e.ops[0], (ast.IsNot, ast.NotEq)):
+                            return True, None
+                    elif isinstance(e.ops[0], (ast.Eq, ast.NotEq, ast.Is, ast.IsNot)):
+                        return None, e
+            return None, None
+        if is_v(e) or (isinstance(e, ast.Call) and call_name(e) == 'bool' and len(e.args) == 1 and is_v(e.args[0])):
+            return None, e
+        if isinstance(e, ast.Name) and depth < 3 and e.id != vparam:
+            v = single_def_value(fn, e.id)
+            if v is not None:
+                return ev(v, depth + 1)
+        return None, None
+
+    def writes(s):
+        for t, stx, how in stores_to(s):
+            b = t
+            while isinstance(b, ast.Subscript):
+                b = b.value
+            if isinstance(t, ast.Subscript) and isinstance(b, ast.Name) and b.id == varparam:
+                return True
+        return any(any(isinstance(a_, ast.Name) and a_.id == varparam for a_ in c.args) for c in calls_in(s)
+                   if not (isinstance(c.func, ast.Attribute) and isinstance(c.func.value, ast.Name)
+                           and c.func.value.id == varparam))
+
+    def run(stmts, taken, k):
+        if not stmts:
+            return k(taken)
+        s, rest = stmts[0], stmts[1:]
+        if isinstance(s, ast.If):
+            v, f = ev(s.test)
+            for pol, blk in ((True, s.body), (False, s.orelse)):
+                if v is None or v is pol:
+                    run(list(blk), taken + ([(f, s)] if f is not None and v is None else []), lambda t: run(rest, t, k))
+            return
+        if isinstance(s, (ast.Return, ast.Raise)):
+            if taken:
+                out.append((taken[0][1].test, s))
+            return
+        if writes(s):
+            return
+        if any(isinstance(t, ast.Name) and t.id == vparam for t, stx, how in stores_to(s)):
+            return          # the value is rebound: what follows is about another value
+        return run(rest, taken, k)
+    try:
+        run(list(fn.body), [], lambda t: out.append((t[0][1].test, fn)) if t else None)
+    except RecursionError:
+        return []
+    return out
+
+
 def _caller_passes_set_values(ctx, m, wr, vparam) -> bool:
     """every call of the writer is made only for values that are set (the callers test the value themselves)"""
     calls = [(f, c) for f, c in callers_of(ctx.prog, wr)]
@@ -1505,6 +1794,20 @@ def rule_absent(ctx, m, arms):
                + ('silently left unwritten' if bad_req[0] == 'return' else 'written'))
     ctx.ob('C03-R2', wr, 'unset value: refused if required, else nothing written', okn, why,
            line=(bad_opt or bad_req or (0, wr.node, 0))[1].lineno)
+    fs_ = []
+    for test, end in falsy_skips(wr.node, vparam, varparam):
+        # where does the test run?  In arms that all have a species dimension the value is a mapping, and an empty
+        # mapping has nothing to write: leaving early changes nothing.  Anywhere else 0 / 0.0 are values.
+        wtable = arms[wr.qualname][2]
+        rows = [row for row, arm in wtable.items() if any(getattr(x, 'test', None) is test for x in arm.walk())]
+        if rows and all(dict(zip(wdims, row)).get('SPECIES') for row in rows):
+            continue
+        fs_.append((test, end))
+    ctx.ob('C03-R2', wr, 'only None counts as unset', not fs_,
+           'no way for a set value to leave the writer unwritten by being falsy / equal to a constant' if not fs_ else
+           (f'`{norm(fs_[0][0])[:50]}` also holds for values that are set (0, 0.0, an empty mapping or array): such a '
+            f'value {"is refused" if isinstance(fs_[0][1], ast.Raise) else "is left unwritten and reads back as unset (None)"}'),
+           line=(fs_[0][1].lineno if fs_ else wr.node.lineno), nontrivial=False)
     rfl = Flow(ctx.prog, rd)
     for row, case in sorted(rcov.items(), key=lambda kv: kv[0]):
         combo = dict(zip(rdims, row))
@@ -1542,6 +1845,14 @@ def rule_absent(ctx, m, arms):
                     'its arrays read back as unset (None)' + (' and its species are dropped' if combo['SPECIES'] else
                                                                '; for a required field _load_trajectory then fails with TypeError (len(None))')),
                    line=case.lineno)
+        # R2b (second half): a marker that tests a length must test emptiness, nothing more (`len(v) > 1` drops
+        # one-point arrays)
+        for c_, at, kinds, lvl in tests:
+            if 'empty' in kinds and lvl in ('entry', 'none'):
+                thr = _length_test(c_)
+                if thr is not None and not thr[0]:
+                    ctx.ob('C03-R2', rd, f'reader arm {label}: a length marker tests emptiness only', False,
+                           f'`{untag(norm(c_))[:60]}` is not a test of emptiness: {thr[1]}', line=getattr(c_, 'lineno', case.lineno))
         # can the writer skip a cell in this arm?  (a membership test of the value decides whether a cell is written)
         w_skips = [n for n in wcase.walk() if isinstance(n, ast.If) and
                    any(isinstance(o, (ast.In, ast.NotIn)) for c in ast.walk(n.test) if isinstance(c, ast.Compare) for o in c.ops)]
@@ -1552,10 +1863,14 @@ def rule_absent(ctx, m, arms):
                 continue
             recognised = [untag(norm(c_)) for c_, at, kinds, lvl in tests if kinds and lvl == 'entry']
             ok = bool(recognised)
+            others = [untag(norm(c_))[:70] for c_, at, kinds, lvl in tests if not kinds and lvl == 'entry']
             ctx.ob('C03-R2', rd, f'reader arm {label}: never-written species are dropped', ok,
                    f'species mapping filtered by {recognised}' if ok else
-                   ('the writer skips species a value does not contain (`if sp in val`) but this reader arm '
-                    'rebuilds every species of the file for every field: species are invented on read-back'),
+                   ('the writer skips species a value does not contain (`if sp in val`) but this reader arm ' + (
+                       f'decides which species to hand back by {others}, which is not a test of the variable\'s own '
+                       'never-written marker (its get_fill_value() / emptiness): species are invented, or stored '
+                       'values dropped, on read-back' if others else
+                       'rebuilds every species of the file for every field: species are invented on read-back')),
                    line=case.lineno)
         elif not combo['THRUST_MODE']:
             none_rets = [(c_, kinds) for c_, at, kinds, lvl in tests if lvl == 'none' and kinds]
@@ -1566,13 +1881,45 @@ def rule_absent(ctx, m, arms):
                    line=case.lineno)
 
 
-def _marker_kinds(fl, cond, at):
-    """which never-written marker a condition tests, after resolving its names: {'fill', 'empty', 'mask'}"""
+def _length_test(c):
+    """(is exactly "empty" / "not empty", explanation) for a comparison of a length / size with a constant; None for
+    anything else"""
+    if not (isinstance(c, ast.Compare) and len(c.ops) == 1):
+        return None
+    l, r = c.left, c.comparators[0]
+    flip = {ast.Gt: ast.Lt, ast.GtE: ast.LtE, ast.Lt: ast.Gt, ast.LtE: ast.GtE}
+    op = type(c.ops[0])
+    if isinstance(l, ast.Constant):
+        l, r, op = r, l, flip.get(op, op)
+    is_len = (isinstance(l, ast.Call) and call_name(l) == 'len') or (isinstance(l, ast.Attribute) and l.attr == 'size')
+    if not is_len or not (isinstance(r, ast.Constant) and type(r.value) is int):
+        return None
+    k = r.value
+    if (op, k) in ((ast.Gt, 0), (ast.GtE, 1), (ast.NotEq, 0), (ast.Eq, 0), (ast.Lt, 1), (ast.LtE, 0)):
+        return True, ''
+    return False, f'arrays of up to {k if op in (ast.Gt, ast.LtE) else max(k - 1, 0)} point(s) that were stored are taken for never written'
+
+
+def _marker_kinds(fl, cond, at, depth=0):
+    """which never-written marker a condition tests, after resolving its names: {'fill', 'empty', 'mask'}.  Helper
+    calls and properties count for what they return (a fill value kept in an attribute of the store is not the
+    variable's own); a test of a container built in the function (`if modes:`) inherits the markers tested where
+    the container is filled."""
     kinds = set()
     try:
-        texts = [norm(x) for x in fl.alts(cond, at)] if at is not None else [norm(cond)]
+        alts = fl.alts(cond, at) if at is not None else [cond]
     except Exception:
-        texts = [norm(cond)]
+        alts = [cond]
+    texts = []
+    for a in alts:
+        texts.append(norm(a))
+        for c in ast.walk(a):
+            if isinstance(c, ast.Call) and not (isinstance(c.func, ast.Attribute) and c.func.attr == 'get_fill_value'):
+                try:
+                    ex = fl.expand(c)
+                except Exception:
+                    ex = None
+                texts += [norm(x) for x in ex or []]
     for t in texts:
         if 'get_fill_value(' in t or '_FillValue' in t or 'default_fillvals' in t:
             kinds.add('fill')
@@ -1580,7 +1927,37 @@ def _marker_kinds(fl, cond, at):
             kinds.add('empty')
         if 'mask' in t or 'isnan' in t:
             kinds.add('mask')
+    if at is not None and depth < 2 and hasattr(cond, '_parent'):
+        for nm in {x.id for x in ast.walk(cond) if isinstance(x, ast.Name)}:
+            if not any(d[0] == 'val' and _is_fresh_container(d[2]) for d in fl.reaching(nm, at)):
+                continue
+            for t, stx, how in stores_to(fl.fn):
+                if isinstance(t, ast.Subscript) and isinstance(t.value, ast.Name) and t.value.id == nm:
+                    lp = next((a_ for a_ in ancestors(stx) if isinstance(a_, (ast.For, ast.While))), None)
+                    tests = [e_ for e_, pol in loop_conditions(stx, lp, (ast.Raise,))[0]] if lp is not None else \
+                        [g for g, pol, _ in guards_of(stx)]
+                    for g in tests:
+                        kinds |= _marker_kinds(fl, g, stmt_of(g), depth + 1)
     return kinds
+
+
+def _pipeline_ifs(x, depth=0):
+    """the `if`s of the comprehension stages that produce the entries of mapping expression x (constructors, dict(),
+    list(), `.items()` peeled; the first generator of each stage and, through its iterable, the stage before)"""
+    out = []
+    while depth < 6:
+        if isinstance(x, ast.Call) and isinstance(x.func, ast.Attribute) and x.func.attr in ('items', 'values', 'keys') \
+                and not x.args:
+            x = x.func.value
+        elif isinstance(x, ast.Call) and len(x.args) == 1 and not x.keywords:
+            x = x.args[0]
+        elif isinstance(x, (ast.DictComp, ast.ListComp, ast.SetComp, ast.GeneratorExp)):
+            out += list(x.generators[0].ifs)
+            x = x.generators[0].iter
+            depth += 1
+        else:
+            break
+    return out
 
 
 def _arm_tests(fl, arm):
@@ -1651,6 +2028,19 @@ def _arm_tests(fl, arm):
                 for g in x.generators[:1]:
                     for i in g.ifs:
                         entry_conds.append((i, at_of(r), 'entry'))
+        # the same by value flow: the mapping handed back, resolved, is a pipeline of comprehensions (`written = [… for
+        # … in cells if v != fill]`, `dict(written)`); the `if`s of every stage decide which entries exist
+        if hasattr(r, '_parent'):
+            have = {untag(norm(c_)) for c_, _, _ in entry_conds}
+            try:
+                resolved = fl.alts(v, r)
+            except Exception:
+                resolved = []
+            for rv in resolved:
+                for i in _pipeline_ifs(rv):
+                    if untag(norm(i)) not in have:
+                        have.add(untag(norm(i)))
+                        entry_conds.append((i, None, 'entry'))
     seen = set()
     for c_, at, lvl in entry_conds:
         seen.add(id(c_))
@@ -1781,51 +2171,843 @@ def _tiny_eval(e, subst):
 
 
 # ---------------------------------------------------------------- R5 -----
+_STORED = ('fieldset_names', 'fieldset_hashes')
+_FORCE = 'force_fieldset_matches'
+_COLLECT = ('list', 'tuple', 'set', 'sorted', 'dict', 'frozenset')
+
+
+def registry_key(x):
+    """K when x is the digest the registry holds for field set K: `….from_registry(K).digest`,
+    `….REGISTRY[K].digest`, `….REGISTRY.get(K).digest`"""
+    if not (isinstance(x, ast.Attribute) and x.attr == 'digest'):
+        return None
+    v = x.value
+    if isinstance(v, ast.Call) and len(v.args) == 1 and not v.keywords and \
+            (v.func.attr if isinstance(v.func, ast.Attribute) else getattr(v.func, 'id', '')) == 'from_registry':
+        return v.args[0]
+    it = peel_item(v)
+    if it is not None and (it[0].attr if isinstance(it[0], ast.Attribute) else getattr(it[0], 'id', '')) == 'REGISTRY':
+        return it[1]
+    return None
+
+
+def _mentions_digest(e) -> bool:
+    return any(isinstance(y, ast.Attribute) and y.attr == 'digest' for y in ast.walk(e))
+
+
+def _site(n):
+    return (getattr(n, 'lineno', 0), getattr(n, 'col_offset', 0), getattr(n, 'end_col_offset', 0))
+
+
+def _peel_seq_call(c):
+    while isinstance(c, ast.Call) and call_name(c) in ('list', 'tuple', 'iter') and len(c.args) == 1 and not c.keywords:
+        c = c.args[0]
+    return c
+
+
+def _dict_of_zip(e):
+    """(A, B) for `dict(zip(A, B))`"""
+    if isinstance(e, ast.Call) and call_name(e) in ('dict', 'OrderedDict', 'collections.OrderedDict') \
+            and len(e.args) == 1 and not e.keywords and isinstance(e.args[0], ast.Call) \
+            and call_name(e.args[0]) == 'zip' and len(e.args[0].args) == 2:
+        return e.args[0].args[0], e.args[0].args[1]
+    return None
+
+
+def _emptiness(e):
+    """(X, empty when the test is true?) when e tests whether X is empty / zero / exhausted: `X`, `len(X)`,
+    `len(X) == 0`, `len(X) > 0`, `X == []`, `X != 0`, `next(X, None) is None` …"""
+    if isinstance(e, ast.Compare) and len(e.ops) == 1:
+        l, r, op = e.left, e.comparators[0], type(e.ops[0])
+        if isinstance(l, ast.Call) and call_name(l) == 'len' and len(l.args) == 1 and isinstance(r, ast.Constant):
+            w = {(ast.Eq, 0): True, (ast.NotEq, 0): False, (ast.Gt, 0): False, (ast.GtE, 1): False, (ast.Lt, 1): True,
+                 (ast.LtE, 0): True}.get((op, r.value))
+            return None if w is None else (l.args[0], w)
+        if (isinstance(r, (ast.List, ast.Tuple, ast.Dict)) and not getattr(r, 'elts', getattr(r, 'keys', None))) \
+                or _is_empty_container(r):
+            return {ast.Eq: (l, True), ast.NotEq: (l, False)}.get(op)
+        if isinstance(r, ast.Constant) and r.value is None and isinstance(l, ast.Call) and call_name(l) == 'next' \
+                and len(l.args) == 2 and isinstance(l.args[1], ast.Constant) and l.args[1].value is None:
+            return {ast.Is: (l.args[0], True), ast.Eq: (l.args[0], True), ast.IsNot: (l.args[0], False),
+                    ast.NotEq: (l.args[0], False)}.get(op)
+        if isinstance(r, ast.Constant) and type(r.value) is int and isinstance(l, ast.Name):
+            w = {(ast.Eq, 0): True, (ast.NotEq, 0): False, (ast.Gt, 0): False, (ast.GtE, 1): False, (ast.Lt, 1): True,
+                 (ast.LtE, 0): True}.get((op, r.value))
+            return None if w is None else (l, w)
+        return None
+    if isinstance(e, ast.Call) and call_name(e) in ('len', 'bool') and len(e.args) == 1 and not e.keywords:
+        return (e.args[0], False)
+    if isinstance(e, (ast.Name, ast.ListComp, ast.SetComp, ast.DictComp, ast.Attribute)) or \
+            (isinstance(e, ast.Call) and call_name(e) in _COLLECT):
+        return (e, False)
+    return None
+
+
+class _Pairs:
+    """one iteration (for statement or comprehension clause): its target, the alternatives of its resolved iterable
+    and the line that tags its variables in resolved expressions"""
+
+    def __init__(self, target, iters, line, is_comp):
+        self.target, self.iters, self.line, self.is_comp = target, iters, line, is_comp
+
+    def is_var(self, n, name) -> bool:
+        return isinstance(n, ast.Name) and (n.id == f'{name}@{self.line}' or (self.is_comp and n.id == name))
+
+
+class _GateAcc:
+    """what the R5 analysis of one open function and of the helpers it calls has found"""
+
+    def __init__(self):
+        self.faults = []        # (fi, line, reason): a construct that lets a mismatch through
+        self.partial = []       # (fi, line, reason): not every pair is visited
+        self.unknown = []       # (fi, line, reason): a form that is not analysed
+        self.verified = []      # (fi, line, text)
+        self.seen_compare = set()
+        self.cache = {}
+        self.closure = {}
+
+
+class _Gate:
+    """R5 for one function under a binding of its parameters (expressions of the caller, resolved there).
+
+    `done` - forward dataflow over the CFG, exceptional edges included, so that a refusal caught by a handler that
+    goes on does not count - is true where every stored digest has been compared with the registry's and each
+    mismatch has either raised or met the force flag.  It becomes true: after a *check loop* (loop()); after a
+    statement that calls a resolved helper every normal exit of which is `done`; on the branch of a test whose
+    outcome implies "no pair mismatched, or forced" (holds())."""
+
+    def __init__(self, prog, fi, binds, acc, depth=0, P0=None):
+        self.prog, self.fi, self.fn, self.binds, self.acc, self.depth = prog, fi, fi.node, binds, acc, depth
+        self.P0 = P0            # the pass of the caller's check loop this function is called in (a per-pair helper)
+        self.fl = Flow(prog, fi)
+        self.cfg = CFG(fi.node)
+        self.loops = {}         # id(For) -> 'ok' | 'fault' | 'deferred' | 'unknown'
+        self.recorders = {}     # local -> (For, truthy means "a mismatch went unrefused")
+        self._hold = {}
+        for lp in walk_no_nested(self.fn):
+            if isinstance(lp, (ast.For, ast.AsyncFor)):
+                P = _Pairs(lp.target, self.res(lp.iter, lp), lp.lineno, False)
+                cmps = self._gate_compares(lp, P)
+                if cmps:
+                    self.loops[id(lp)] = self.loop(lp, P, cmps)
+                elif P.iters and all(self._none_left(a, True) for a in P.iters):
+                    self.loops[id(lp)] = self.loop_over_failed(lp)
+                elif self._hands_pairs_on(lp, P):
+                    self.loops[id(lp)] = self.loop(lp, P, [])
+
+    # -- resolution ---------------------------------------------------------
+    def res(self, e, at, depth=0):
+        """alternatives of e at statement `at`, in the terms of the outermost caller"""
+        out = []
+        for a in self.fl.alts(e, at):
+            bound = Flow._bound_inside(a)
+            slots = [(x, self.binds[x.id]) for x in ast.walk(a)
+                     if isinstance(x, ast.Name) and x.id in self.binds and x.id not in bound]
+            # a non-empty display (`names = [names]`) is a value, not a container to be filled later
+            for x in ast.walk(a):
+                if isinstance(x, ast.Name) and '@' in x.id and depth < 4:
+                    nm, line = x.id.rsplit('@', 1)
+                    d = [s for s in local_defs(self.fn, nm) if str(s.lineno) == line and isinstance(s, ast.Assign)
+                         and isinstance(s.value, (ast.List, ast.Tuple, ast.Set)) and s.value.elts]
+                    if len(d) == 1:
+                        slots.append((x, self.res(d[0].value, d[0], depth + 1)))
+            if not slots:
+                out.append(a)
+                continue
+            n = 1
+            for _, ch in slots:
+                n *= max(1, len(ch))
+            if n > Flow.CAP:
+                slots = [(x, ch[:1]) for x, ch in slots]
+            for combo in itertools.product(*[ch for _, ch in slots]):
+                out.append(_rebuild(a, {id(x): v for (x, _), v in zip(slots, combo)}))
+        return [project_records(self.prog, self.fi, a) for a in out[:4 * Flow.CAP]]
+
+    def expanded(self, e):
+        """what a resolved helper call / property read returns (None-returns dropped), or None"""
+        if not isinstance(e, (ast.Call, ast.Attribute)):
+            return None
+        if isinstance(e, ast.Call) and isinstance(e.func, ast.Name) and '@' in e.func.id:
+            # a nested function, tagged by Flow like any other local
+            e = _rebuild(e, {id(e.func): ast.Name(id=e.func.id.split('@')[0], ctx=ast.Load())})
+        try:
+            ex = self.fl.expand(e)
+        except (AttributeError, KeyError, IndexError, TypeError):
+            return None
+        if not ex:
+            return None
+        return [x for x in ex if not (isinstance(x, ast.Constant) and x.value is None)] or None
+
+    def stored_attr(self, e, depth=0):
+        """'fieldset_names' / 'fieldset_hashes' when e denotes that whole attribute of the file (a single string
+        wrapped into a list, list(), `x or []`, getattr or a reading helper included); None otherwise"""
+        if depth > 5 or e is None:
+            return None
+        if isinstance(e, (ast.List, ast.Tuple)) and len(e.elts) == 1 and not isinstance(e.elts[0], ast.Starred):
+            return self.stored_attr(e.elts[0], depth + 1)
+        if isinstance(e, ast.Call) and len(e.args) == 1 and not e.keywords and call_name(e) in (
+                'list', 'tuple', 'np.atleast_1d', 'numpy.atleast_1d', 'np.asarray', 'numpy.asarray', 'np.array',
+                'numpy.array'):
+            return self.stored_attr(e.args[0], depth + 1)
+        if isinstance(e, ast.Call) and isinstance(e.func, ast.Attribute) and e.func.attr in ('tolist', 'copy') \
+                and not e.args and not e.keywords:
+            return self.stored_attr(e.func.value, depth + 1)
+        if isinstance(e, ast.IfExp):
+            a, b = self.stored_attr(e.body, depth + 1), self.stored_attr(e.orelse, depth + 1)
+            return a if a == b else None
+        if isinstance(e, ast.BoolOp) and isinstance(e.op, ast.Or) and all(
+                _is_empty_container(v) or (isinstance(v, ast.Tuple) and not v.elts) for v in e.values[1:]):
+            return self.stored_attr(e.values[0], depth + 1)
+        if isinstance(e, ast.Attribute) and e.attr in _STORED:
+            return e.attr
+        if isinstance(e, ast.Call) and call_name(e).split('.')[-1] in ('getattr', 'getncattr') and e.args:
+            k = e.args[1] if call_name(e) == 'getattr' and len(e.args) > 1 else e.args[0]
+            return k.value if isinstance(k, ast.Constant) and k.value in _STORED else None
+        ex = self.expanded(e)
+        if ex:
+            s = {self.stored_attr(x, depth + 1) for x in ex}
+            if len(s) == 1:
+                return s.pop()
+        return None
+
+    def whole(self, e, depth=0) -> bool:
+        """e runs over every stored name / hash: the attribute itself or a one-to-one image of it"""
+        if self.stored_attr(e) in _STORED:
+            return True
+        if isinstance(e, (ast.ListComp, ast.GeneratorExp)) and len(e.generators) == 1 and not e.generators[0].ifs \
+                and depth < 3:
+            return self.whole(e.generators[0].iter, depth + 1)
+        return False
+
+    # -- positions ----------------------------------------------------------
+    def _bases_in(self, x, tg, alt, P):
+        dz = key = None
+        if isinstance(x, ast.Subscript):
+            dz, key = _dict_of_zip(x.value), x.slice
+        elif isinstance(x, ast.Call) and isinstance(x.func, ast.Attribute) and x.func.attr in ('get', '__getitem__') \
+                and len(x.args) == 1:
+            dz, key = _dict_of_zip(x.func.value), x.args[0]
+        if dz is not None:
+            kb = self._bases_in(key, tg, alt, P)
+            if kb and all(norm(k) == norm(dz[0]) or
+                          (self.stored_attr(k) is not None and self.stored_attr(k) == self.stored_attr(dz[0])) for k in kb):
+                return [dz[1]]
+            return None
+        c = _peel_seq_call(alt)
+        cn = call_name(c) if isinstance(c, ast.Call) else ''
+        names = [t.id if isinstance(t, ast.Name) else None for t in tg.elts] if isinstance(tg, (ast.Tuple, ast.List)) \
+            else None
+        if cn == 'zip':
+            if names is not None and len(names) == len(c.args) and all(k.arg == 'strict' for k in c.keywords):
+                for j, nm in enumerate(names):
+                    if nm and P.is_var(x, nm):
+                        return [c.args[j]]
+            return None
+        if cn == 'enumerate':
+            if names is not None and len(names) == 2 and len(c.args) == 1 and not c.keywords:
+                if names[1] and P.is_var(x, names[1]):
+                    return [c.args[0]]
+                if isinstance(x, ast.Subscript) and names[0] and P.is_var(x.slice, names[0]):
+                    return [x.value]
+            return None
+        if cn == 'range':
+            if len(c.args) == 1 and isinstance(tg, ast.Name) and isinstance(c.args[0], ast.Call) \
+                    and call_name(c.args[0]) == 'len' and len(c.args[0].args) == 1 \
+                    and isinstance(x, ast.Subscript) and P.is_var(x.slice, tg.id):
+                return [x.value]
+            return None
+        m = c
+        if isinstance(c, ast.Call) and isinstance(c.func, ast.Attribute) and c.func.attr in ('items', 'keys') and not c.args:
+            m = c.func.value
+        dz = _dict_of_zip(m)
+        if dz is not None:
+            k = names[0] if names is not None and len(names) == 2 else (tg.id if isinstance(tg, ast.Name) else None)
+            return [dz[0]] if k and P.is_var(x, k) else None
+        if isinstance(tg, ast.Name) and P.is_var(x, tg.id) and not isinstance(c, ast.Call):
+            return [c]
+        return None
+
+    def bases(self, x, P):
+        """sequences S with x == S[position of the current pass of P], over all alternatives of P's iterable"""
+        out = []
+        for alt in P.iters:
+            b = self._bases_in(x, P.target, alt, P)
+            if b is None:
+                return None
+            out += b
+        return out or None
+
+    def drivers(self, P):
+        """the sequences whose members the passes of P stand for; None if not understood"""
+        out = []
+        for c in P.iters:
+            c = _peel_seq_call(c)
+            cn = call_name(c) if isinstance(c, ast.Call) else ''
+            if cn == 'zip':
+                out += list(c.args)
+            elif cn == 'enumerate' and len(c.args) == 1 and not c.keywords:
+                out.append(c.args[0])
+            elif cn == 'range' and len(c.args) == 1 and isinstance(c.args[0], ast.Call) \
+                    and call_name(c.args[0]) == 'len' and c.args[0].args:
+                out.append(c.args[0].args[0])
+            else:
+                m = c
+                if isinstance(c, ast.Call) and isinstance(c.func, ast.Attribute) and c.func.attr in ('items', 'keys') \
+                        and not c.args:
+                    m = c.func.value
+                dz = _dict_of_zip(m)
+                if dz is not None:
+                    out += list(dz)
+                elif isinstance(c, ast.Call):
+                    return None
+                else:
+                    out.append(c)
+        return out or None
+
+    def _digest_side(self, d, P):
+        """sequences of names N such that d is the registry's digest of N[position]; None if d is no such digest"""
+        k = registry_key(d)
+        if k is None:
+            ex = self.expanded(d)
+            if ex and len(ex) == 1:
+                k = registry_key(ex[0])
+        if k is not None:
+            return self.bases(k, P)
+        out = []
+        for s in self.bases(d, P) or [None]:
+            # a member of `[registry digest of n for n in N]`
+            if isinstance(s, (ast.ListComp, ast.GeneratorExp)) and len(s.generators) == 1 and not s.generators[0].ifs \
+                    and isinstance(s.generators[0].target, ast.Name):
+                k2 = registry_key(s.elt)
+                if isinstance(k2, ast.Name) and k2.id == s.generators[0].target.id:
+                    out.append(s.generators[0].iter)
+                    continue
+            return None
+        return out
+
+    def is_match(self, cmp, P) -> bool:
+        """resolved comparison of the registry's digest for the pair's name with the pair's stored hash"""
+        if P is None or len(cmp.ops) != 1:
+            return False
+        a, b = cmp.left, cmp.comparators[0]
+        for d, h in ((a, b), (b, a)):
+            ns = self._digest_side(d, P)
+            hs = self.bases(h, P) if ns else None
+            if ns and hs and all(self.stored_attr(s) == 'fieldset_names' for s in ns) and \
+                    all(self.stored_attr(s) == 'fieldset_hashes' for s in hs):
+                return True
+        return False
+
+    @staticmethod
+    def is_force(e) -> bool:
+        if isinstance(e, ast.Attribute) and e.attr == _FORCE:
+            return True
+        if isinstance(e, ast.Call) and call_name(e) == 'getattr' and len(e.args) >= 2 \
+                and isinstance(e.args[1], ast.Constant) and e.args[1].value == _FORCE:
+            return len(e.args) == 2 or (isinstance(e.args[2], ast.Constant) and not e.args[2].value)
+        return False
+
+    # -- "this test, with this outcome, means: no mismatch here, or forced" ---
+    def _comp_pairs(self, comp):
+        if not isinstance(comp, (ast.ListComp, ast.SetComp, ast.GeneratorExp, ast.DictComp)) or len(comp.generators) != 1:
+            return None
+        g = comp.generators[0]
+        P = _Pairs(g.target, [g.iter], getattr(comp, 'lineno', 0), True)
+        dr = self.drivers(P)
+        if dr is None or not all(self.whole(s) for s in dr):
+            return None
+        return P
+
+    def _generator_as_comp(self, c):
+        """the generator expression a call of a resolved generator function stands for, when the function is one
+        loop that yields under one condition: `for t in IT: if C: yield E` -> `(E for t in IT if C)`, parameters
+        replaced by the arguments of the call"""
+        if not isinstance(c, ast.Call):
+            return None
+        if isinstance(c.func, ast.Name) and '@' in c.func.id:
+            c = _rebuild(c, {id(c.func): ast.Name(id=c.func.id.split('@')[0], ctx=ast.Load())})
+        callee = resolve_call(self.prog, self.fi, c)
+        if callee is None or not isinstance(callee.node, ast.FunctionDef):
+            return None
+        body = [s for s in callee.node.body if not (isinstance(s, ast.Expr) and isinstance(s.value, ast.Constant))]
+        if len(body) != 1 or not isinstance(body[0], ast.For) or body[0].orelse:
+            return None
+        lp, ifs, inner = body[0], [], body[0].body
+        while len(inner) == 1 and isinstance(inner[0], ast.If) and not inner[0].orelse:
+            ifs.append(inner[0].test)
+            inner = inner[0].body
+        if not (len(inner) == 1 and isinstance(inner[0], ast.Expr) and isinstance(inner[0].value, ast.Yield)
+                and inner[0].value.value is not None):
+            return None
+        ps = callee.params
+        binds, off = {}, 0
+        if ps[:1] in (['self'], ['cls']) and isinstance(c.func, ast.Attribute) and \
+                not any('staticmethod' in d for d in callee.decorators()):
+            binds[ps[0]], off = c.func.value, 1
+        if any(isinstance(a, ast.Starred) for a in c.args) or any(k.arg is None for k in c.keywords):
+            return None
+        binds.update(zip(ps[off:], c.args))
+        binds.update({k.arg: k.value for k in c.keywords})
+        comp = ast.GeneratorExp(elt=inner[0].value.value, generators=[
+            ast.comprehension(target=lp.target, iter=lp.iter, ifs=ifs, is_async=0)])
+        comp = ast.copy_location(comp, lp)
+        own = names_of_target(lp.target)
+        return _rebuild(comp, {id(x): binds[x.id] for x in ast.walk(comp)
+                               if isinstance(x, ast.Name) and x.id in binds and x.id not in own})
+
+    def _none_left(self, m, gen_ok=False) -> bool:
+        """m collects the pairs that failed (a filtered comprehension over all pairs): empty means none failed"""
+        while isinstance(m, ast.Call) and call_name(m) in _COLLECT and len(m.args) == 1:
+            m, gen_ok = m.args[0], True
+        g = self._generator_as_comp(m)
+        if g is not None:
+            m, gen_ok = g, True
+        if isinstance(m, ast.GeneratorExp) and not gen_ok:
+            return False
+        P = self._comp_pairs(m)
+        if P is None:
+            return False
+        ifs = m.generators[0].ifs
+        return bool(ifs) and all(self.holds(t, False, None, P, 'any', True) for t in ifs)
+
+    def holds(self, e, pol, at, P, want='any', resolved=False, depth=0) -> bool:
+        """e having truth value pol implies: the pair of the current pass of P matches or the force flag is set
+        (want='force': the force flag is set); outside a loop (P None): no pair mismatched, or forced"""
+        if depth == 0 and not resolved:
+            k = (id(e), pol, id(P), want)
+            if k not in self._hold:
+                self._hold[k] = self._holds(e, pol, at, P, want, resolved, 1)
+            return self._hold[k]
+        return self._holds(e, pol, at, P, want, resolved, depth)
+
+    def _holds(self, e, pol, at, P, want, resolved, depth) -> bool:
+        if depth > 10 or e is None:
+            return False
+        if isinstance(e, ast.UnaryOp) and isinstance(e.op, ast.Not):
+            return self._holds(e.operand, not pol, at, P, want, resolved, depth + 1)
+        if isinstance(e, ast.BoolOp):
+            rs = [self._holds(v, pol, at, P, want, resolved, depth + 1) for v in e.values]
+            return any(rs) if isinstance(e.op, ast.And) == pol else all(rs)
+        em = _emptiness(e)
+        if em is not None and want == 'any':
+            X, falsy = em[0], pol == em[1]
+            if not resolved and isinstance(X, ast.Name) and X.id in self.recorders:
+                lp, sense = self.recorders[X.id]
+                if getattr(at, 'lineno', 0) > (lp.end_lineno or 1 << 30) and falsy == sense:
+                    return True
+            if falsy:
+                xs = [X] if resolved else (self.res(X, at) if at is not None else [])
+                gen_ok = X is not e and isinstance(e, ast.Compare) and isinstance(e.left, ast.Call) \
+                    and call_name(e.left) == 'next'
+                if xs and all(self._none_left(x, gen_ok) or (P is None and self.stored_attr(x) in _STORED) for x in xs):
+                    return True
+        if not resolved:
+            alts = self.res(e, at) if at is not None else []
+            return bool(alts) and all(self._holds(a, pol, at, P, want, True, depth + 1) for a in alts)
+        if isinstance(e, ast.Constant):
+            return bool(e.value) is not pol      # this outcome cannot happen
+        if self.is_force(e):
+            return pol
+        if isinstance(e, ast.Call) and call_name(e) == 'bool' and len(e.args) == 1:
+            return self._holds(e.args[0], pol, at, P, want, True, depth + 1)
+        if isinstance(e, ast.Compare) and len(e.ops) == 1:
+            op, l, r = e.ops[0], e.left, e.comparators[0]
+            eq = isinstance(op, (ast.Eq, ast.Is))
+            if not eq and not isinstance(op, (ast.NotEq, ast.IsNot)):
+                return False
+            if isinstance(r, ast.Constant) and isinstance(r.value, bool):
+                return self._holds(l, pol if eq == r.value else not pol, at, P, want, True, depth + 1)
+            if self.is_match(e, P):
+                # understood, whatever it implies here
+                self.acc.seen_compare.add(_site(e))
+                return want == 'any' and eq == pol
+            return False
+        if isinstance(e, ast.Call) and call_name(e) in ('any', 'all') and len(e.args) == 1 and not e.keywords:
+            g = e.args[0]
+            Pc = self._comp_pairs(g)
+            if Pc is None or want != 'any' or isinstance(g, ast.DictComp) or (call_name(e) == 'all') != pol:
+                return False
+            return self._holds(g.elt, pol, None, Pc, want, True, depth + 1) and \
+                all(self._holds(t, False, None, Pc, want, True, depth + 1) for t in g.generators[0].ifs)
+        ex = self.expanded(e)
+        if ex:
+            return all(self._holds(x, pol, at, P, want, True, depth + 1) for x in ex)
+        return False
+
+    # -- the check loop -----------------------------------------------------
+    def _gate_compares(self, lp, P):
+        """comparisons in the body of lp (not in a loop nested in it) that involve a registry digest or the stored
+        hash of the current pass"""
+        out = []
+        for s in lp.body:
+            for x in walk_no_nested(s):
+                if not (isinstance(x, ast.Compare) and len(x.ops) == 1 and
+                        isinstance(x.ops[0], (ast.Eq, ast.NotEq, ast.Is, ast.IsNot))):
+                    continue
+                if any(isinstance(a, (ast.For, ast.AsyncFor, ast.While)) and a is not lp and is_within(a, lp)
+                       for a in ancestors(x)):
+                    continue
+                alts = self.res(x, stmt_of(x))
+                if _mentions_digest(x) or any(_mentions_digest(a) for a in alts):
+                    out.append(x)
+                    continue
+                for a in alts:
+                    if not isinstance(a, ast.Compare):
+                        continue
+                    for side in (a.left, a.comparators[0]):
+                        bs = self.bases(side, P)
+                        if bs and any(self.stored_attr(b) == 'fieldset_hashes' for b in bs):
+                            out.append(x)
+                            break
+                    else:
+                        continue
+                    break
+        return out
+
+    def _hands_pairs_on(self, lp, P) -> bool:
+        """lp runs over the stored names and hashes and gives both members of the pair to a resolved helper"""
+        dr = self.drivers(P)
+        if not dr or {self.stored_attr(s) for s in dr} != set(_STORED):
+            return False
+        for c in calls_in(lp):
+            callee = resolve_call(self.prog, self.fi, c)
+            if callee is None:
+                continue
+            got = set()
+            for a in list(c.args) + [k.value for k in c.keywords]:
+                for x in self.res(a, stmt_of(c)):
+                    for b in self.bases(x, P) or []:
+                        got.add(self.stored_attr(b))
+            # both members, or one of them to a helper that deals with digests (the other may be the mistake)
+            if got >= set(_STORED) or (got & set(_STORED) and any(
+                    _mentions_digest(f.node) for f in _callee_closure(self.prog, callee, 2))):
+                return True
+        return False
+
+    def _recording(self, lp):
+        """{local: statements of the loop body that record into it}: `x = …`, `x += …`, `x[k] = …`, `x.append(…)`"""
+        rec = {}
+        own = names_of_target(lp.target)
+        for s in walk_no_nested(lp):
+            if s is lp or not isinstance(s, ast.stmt):
+                continue
+            tg = [t for t, stx, how in stores_to(s) if stx is s and how in ('assign', 'aug', 'ann')]
+            if isinstance(s, ast.Expr) and isinstance(s.value, ast.Call) and isinstance(s.value.func, ast.Attribute) \
+                    and s.value.func.attr in ('append', 'add', 'extend', 'update', 'insert', 'setdefault'):
+                tg.append(s.value.func.value)
+            for t in tg:
+                while isinstance(t, (ast.Subscript, ast.Attribute)):
+                    t = t.value
+                if isinstance(t, ast.Name) and t.id not in own and t.id != 'self':
+                    rec.setdefault(t.id, []).append(s)
+        return rec
+
+    def _recorder_init(self, lp, name, marks):
+        """truthy-means-mismatch sense of a flag / collection initialised before the loop, else None"""
+        outside = [s for s in local_defs(self.fn, name) if not is_within(s, lp)]
+        if len(outside) != 1 or outside[0].lineno > lp.lineno or not isinstance(outside[0], (ast.Assign, ast.AnnAssign)):
+            return None
+        v = outside[0].value
+        if not any(isinstance(x, ast.Name) and x.id == name and x.lineno > (lp.end_lineno or 0)
+                   for x in walk_no_nested(self.fn)):
+            return None
+        if _is_empty_container(v) or (isinstance(v, ast.Constant) and v.value in (False, 0)):
+            if any(isinstance(s, ast.Assign) and isinstance(s.value, ast.Constant) and not s.value.value for s in marks):
+                return None
+            return True
+        if isinstance(v, ast.Constant) and v.value is True:
+            if all(isinstance(s, ast.Assign) and isinstance(s.value, ast.Constant) and s.value.value is False
+                   for s in marks):
+                return False
+        return None
+
+    def loop(self, lp, P, cmps):
+        """'ok': every pass that does not raise has found the pair's digests equal or the force flag set, a pass that
+        ends the loop early the force flag; the passes are all (name, hash) pairs of the file.  'deferred': a pass
+        that found neither has recorded it in a flag / collection that a later test consults."""
+        fi, acc = self.fi, self.acc
+        for c in cmps:
+            acc.seen_compare.add(_site(c))
+        for x in walk_no_nested(lp):
+            if isinstance(x, (ast.Continue, ast.Break, ast.Return, ast.Raise)):
+                for a in ancestors(x):
+                    if a is lp:
+                        break
+                    if isinstance(a, (ast.Try, ast.Match, ast.While)) or (
+                            isinstance(a, (ast.For, ast.AsyncFor)) and isinstance(x, (ast.Return, ast.Raise))):
+                        acc.unknown.append((fi, lp.lineno, f'`{norm(x)[:40]}` inside a {type(a).__name__.lower()} '
+                                            'statement of the check loop is not followed'))
+                        return 'unknown'
+        dr = self.drivers(P)
+        if dr is None:
+            acc.unknown.append((fi, lp.lineno, f'what the check loop runs over is not understood: {norm(lp.iter)[:60]}'))
+            return 'unknown'
+        if not all(self.whole(s) for s in dr):
+            over = f'the check loop runs over `{untag(norm(lp.iter))[:70]}`'
+            if any(not _plain_iter(s) and self.stored_attr(_strip_slices(s)) in _STORED for s in dr) or \
+                    not _plain_iter(lp.iter):
+                acc.partial.append((fi, lp.lineno, over + ': not every (name, hash) pair of the file'))
+                return 'fault'
+            acc.unknown.append((fi, lp.lineno, over + ", not recognised as the file's stored names and hashes"))
+            return 'unknown'
+
+        # statements of the body that hand the pair to a resolved helper which itself compares (or refuses)
+        settled = [s for s in walk_no_nested(lp) if isinstance(s, (ast.Expr, ast.Assign, ast.AnnAssign))
+                   and self._helper_done(s, P)]
+        via_helper = None
+        if settled:
+            via_helper = iteration_paths(lp.body, lambda s: any(s is q for q in settled), (ast.Raise,))
+
+        def classify(marks):
+            paths = iteration_paths(lp.body, lambda s: any(s is q for q in marks), (ast.Raise,))
+            if paths is None:
+                return None
+            silent = early = None
+            rec_bad = rec_good = False
+            for i, (kind, visited, conds) in enumerate(paths):
+                if kind == 'abort':
+                    continue
+                if kind == 'next' and via_helper is not None and i < len(via_helper) and via_helper[i][1]:
+                    continue        # same way through the body (the enumeration is deterministic), settled by the helper
+                if any(self.holds(t, p, stmt_of(t), P, 'force' if kind == 'leave' else 'any') for t, p in conds):
+                    rec_good = rec_good or visited
+                elif visited:
+                    rec_bad = True
+                elif kind == 'leave':
+                    early = conds
+                else:
+                    silent = conds
+            return silent, early, rec_bad, rec_good
+        r0 = classify([])
+        if r0 is None:
+            acc.unknown.append((fi, lp.lineno, 'too many ways through the check loop'))
+            return 'unknown'
+        silent, early = r0[0], r0[1]
+        if silent is None and early is None:
+            acc.verified.append((fi, lp.lineno, untag(norm(lp.iter))))
+            return 'ok'
+        recs = self._recording(lp)
+        cands = [(r, self._recorder_init(lp, r, recs[r])) for r in sorted(recs)]
+        cands = [(r, s) for r, s in cands if s is not None]
+        for r, sense in cands:
+            rr = classify(recs[r])
+            if rr is not None and rr[0] is None and rr[1] is None and not rr[3]:
+                self.recorders[r] = (lp, sense)
+                return 'deferred'
+        if cands:
+            acc.unknown.append((fi, lp.lineno, f'the check loop records into `{cands[0][0]}` in a form that is not analysed'))
+            return 'unknown'
+        conds = silent if silent is not None else early
+        how = ' and '.join(f'`{untag(norm(t))[:60]}` is {p}' for t, p in conds)
+        how = 'when ' + how if how else 'on every pass'
+        if silent is not None:
+            acc.faults.append((fi, lp.lineno, 'a pass of the check loop goes on without having found the registry\'s '
+                               f'digest equal to the stored one or the force flag set ({how}): a file whose '
+                               'definition differs opens silently'))
+        else:
+            acc.faults.append((fi, lp.lineno, f'the check loop ends before the last pair without the force flag '
+                               f'({how}): the later pairs are never compared'))
+        return 'fault'
+
+    def loop_over_failed(self, lp):
+        """lp runs over the pairs that failed the comparison (nothing to do when there is none): 'ok' when every
+        pass that does not raise has met the force flag"""
+        if any(isinstance(x, (ast.Continue, ast.Break, ast.Return, ast.Raise)) and any(
+                isinstance(a, (ast.Try, ast.Match, ast.While, ast.For)) and a is not lp and is_within(a, lp)
+                for a in ancestors(x)) for x in walk_no_nested(lp)):
+            self.acc.unknown.append((self.fi, lp.lineno, 'an exit buried in the loop over the mismatching pairs is not followed'))
+            return 'unknown'
+        paths = iteration_paths(lp.body, lambda s: False, (ast.Raise,))
+        if paths is None:
+            self.acc.unknown.append((self.fi, lp.lineno, 'too many ways through the loop over the mismatching pairs'))
+            return 'unknown'
+        for kind, visited, conds in paths:
+            if kind != 'abort' and not any(self.holds(t, p, stmt_of(t), None, 'force') for t, p in conds):
+                how = ' and '.join(f'`{untag(norm(t))[:60]}` is {p}' for t, p in conds)
+                self.acc.faults.append((self.fi, lp.lineno, 'a pair whose digests differ is let through without the '
+                                        f'force flag ({"when " + how if how else "on every pass"}): a file whose '
+                                        'definition differs opens silently'))
+                return 'fault'
+        self.acc.verified.append((self.fi, lp.lineno, untag(norm(lp.iter))))
+        return 'ok'
+
+    # -- the function -------------------------------------------------------
+    def _worth(self, callee) -> bool:
+        k = (callee.file, callee.qualname)
+        if k not in self.acc.closure:
+            self.acc.closure[k] = any(_mentions_digest(f.node) or any(
+                self.is_force(x) or isinstance(x, ast.Raise) for x in ast.walk(f.node))
+                for f in _callee_closure(self.prog, callee, 2))
+        return self.acc.closure[k]
+
+    def _helper_done(self, s, P=None) -> bool:
+        """statement s calls (unconditionally) a resolved helper every normal exit of which is `done` - for the pair
+        of the current pass of P when the call is made inside a check loop"""
+        P = P or self.P0
+        if self.depth >= 3 or isinstance(s, (ast.If, ast.For, ast.AsyncFor, ast.While, ast.With, ast.AsyncWith, ast.Try,
+                                             ast.Match, ast.FunctionDef, ast.AsyncFunctionDef, ast.ClassDef)):
+            return False
+        for c in calls_in(s):
+            if guards_of(c, stop=s) or any(
+                    isinstance(a, (ast.ListComp, ast.SetComp, ast.DictComp, ast.GeneratorExp, ast.Lambda))
+                    for a in ancestors(c) if is_within(a, s)):
+                continue
+            callee = resolve_call(self.prog, self.fi, c)
+            if callee is None or callee.node is self.fn or not isinstance(callee.node, (ast.FunctionDef, ast.AsyncFunctionDef)) \
+                    or not self._worth(callee):
+                continue
+            binds = self._bind(callee, c, s)
+            if binds is None:
+                continue
+            key = (callee.file, callee.qualname, id(P),
+                   tuple(sorted((k, tuple(norm(x) for x in v)) for k, v in binds.items())))
+            if key not in self.acc.cache:
+                self.acc.cache[key] = False      # recursion guard
+                self.acc.cache[key] = _Gate(self.prog, callee, binds, self.acc, self.depth + 1, P).exit_done()
+            if self.acc.cache[key]:
+                return True
+        return False
+
+    def _bind(self, callee, c, at):
+        if any(isinstance(a, ast.Starred) for a in c.args) or any(k.arg is None for k in c.keywords):
+            return None
+        ps = callee.params
+        raw, binds, off = {}, {}, 0
+        if ps[:1] in (['self'], ['cls']) and isinstance(c.func, ast.Attribute) and \
+                not any('staticmethod' in d for d in callee.decorators()):
+            raw[ps[0]] = c.func.value
+            off = 1
+        for p, a in zip(ps[off:], c.args):
+            raw[p] = a
+        for k in c.keywords:
+            raw[k.arg] = k.value
+        for p in ps:
+            if p not in raw:
+                d = _default_of(callee, p)
+                if d is not None:
+                    binds[p] = [d]
+        for p, a in raw.items():
+            alts = []
+            for x in self.res(a, at):
+                ex = self.expanded(x) if isinstance(x, ast.Call) else None
+                alts += ex if ex else [x]
+            binds[p] = alts[:Flow.CAP]
+        return binds
+
+    def flow(self):
+        cache = {}
+
+        def transfer(node, st):
+            s = node.stmt
+            if st or s is None:
+                return st
+            if node.kind == 'join' and self.loops.get(id(s)) == 'ok':
+                return True
+            if node.kind == 'stmt':
+                if isinstance(s, ast.Return) and any(self.loops.get(id(a)) == 'ok' for a in ancestors(s)):
+                    return True
+                if id(s) not in cache:
+                    cache[id(s)] = self._helper_done(s)
+                return cache[id(s)]
+            return st
+
+        def branch(node, lab, val):
+            if val or node.kind != 'test':
+                return val
+            return self.holds(node.stmt.test, lab == 't', node.stmt, self.P0)
+        return self.cfg.forward(False, transfer, lambda a, b: a and b, branch_transfer=branch)[0]
+
+    def exit_done(self) -> bool:
+        return bool(self.flow().get(self.cfg.exit, False))
+
+
+def _strip_slices(e):
+    while isinstance(e, ast.Subscript) and isinstance(e.slice, ast.Slice):
+        e = e.value
+    return e
+
+
+def _callee_closure(prog, fi, depth):
+    out, seen = [], set()
+
+    def go(f, d):
+        if id(f.node) in seen or d > depth:
+            return
+        seen.add(id(f.node))
+        out.append(f)
+        for c in calls_in(f.node):
+            cal = resolve_call(prog, f, c)
+            if cal is not None and isinstance(cal.node, (ast.FunctionDef, ast.AsyncFunctionDef)) \
+                    and cal.file.endswith((STORE, FS)):
+                go(cal, d + 1)
+    go(fi, 0)
+    return out
+
+
 def rule_hash_gate(ctx, m):
+    """R5.  For each function that opens an existing file: on every way from the entry to a `return` of a value
+    (the NcFiles description), each stored digest has been compared with the registry's digest for the same name
+    and a mismatch has raised - or, only under force_fieldset_matches, has been let through."""
+    prog = ctx.prog
     for qn in ('TrajectoryStore._open_nc_file', 'TrajectoryStore._open_merged_store'):
         fi = m.func(qn)
-        g = CFG(fi.node)
-        dom = g.dominators(edge_ok=lambda a, b, lab: lab != 'e')
-        gate = None
-        for n in g.nodes:
-            if n.kind == 'stmt' and isinstance(n.stmt, ast.Raise):
-                gs = guards_of(n.stmt)
-                txt = [(norm(t), pol) for t, pol, _ in gs]
-                def is_gate(t, pol):
-                    """a digest mismatch: `a.digest != b` held true, or `a.digest == b` held false"""
-                    return isinstance(t, ast.Compare) and len(t.ops) == 1 and \
-                        isinstance(t.ops[0], ast.NotEq if pol else ast.Eq) and \
-                        any(isinstance(y, ast.Attribute) and y.attr == 'digest' for x in [t.left] + t.comparators
-                            for y in ast.walk(x))
-                facts = [(f_, p_) for t, pol, _ in gs for f_, p_ in conjuncts(t, pol)]
-                for _ in range(3):      # flags held in single-definition locals
-                    facts = [y for f_, p_ in facts for y in (
-                        conjuncts(single_def_value(fi.node, f_.id), p_)
-                        if isinstance(f_, ast.Name) and single_def_value(fi.node, f_.id) is not None else [(f_, p_)])]
-                if any(is_gate(f_, p_) for f_, p_ in facts):
-                    extra = [(norm(f_), p_) for f_, p_ in facts if not is_gate(f_, p_)]
-                    okx = all(t == 'self.force_fieldset_matches' and p_ is False for t, p_ in extra)
-                    loops = [a for a in ancestors(n.stmt) if isinstance(a, ast.For)]
-                    gate = (n, okx, loops)
-        if gate is None:
-            ctx.ob('C03-R5', fi, 'digest comparison refuses a mismatch', False,
-                   'no raise guarded by a digest mismatch: any file opens under any definition')
+        acc = _GateAcc()
+        gate = _Gate(prog, fi, {}, acc)
+        ins = gate.flow()
+        g = gate.cfg
+        rets = [n for n in g.nodes if n.kind == 'stmt' and isinstance(n.stmt, ast.Return) and n.stmt.value is not None
+                and not (isinstance(n.stmt.value, ast.Constant) and n.stmt.value.value is None) and n.id in ins]
+        builds = 0
+        for n in rets:
+            for v in gate.fl.alts(n.stmt.value, n.stmt):
+                if any(isinstance(x, ast.Call) and getattr(resolve_class_call(prog, fi, x), 'name', '') == 'NcFiles'
+                       for x in [v] + (gate.expanded(v) or [])):
+                    builds += 1
+                    break
+        if not builds:
+            ctx.undecided('C03-R5', fi, 'NcFiles return', 'no return of a file description (NcFiles) found')
             continue
-        n, okx, loops = gate
-        rets = [r for r in g.nodes if r.kind == 'stmt' and isinstance(r.stmt, ast.Return)
-                and r.stmt.value is not None and 'NcFiles' in norm(r.stmt.value)]
-        heads = [x for lp in loops for x in g.nodes_of(lp)]
-        ok = okx and bool(rets) and all(any(h in dom[r.id] for h in heads) for r in rets)
-        ctx.ob('C03-R5', fi, 'NcFiles returned only after the digest gate', ok,
-               'the check loop dominates the return; only force_fieldset_matches bypasses it' if ok else
-               'a path returns the file description without passing the digest comparison', line=n.line)
-        lp = loops[0] if loops else None
-        its = [norm(x) for x in Flow(ctx.prog, fi).alts(lp.iter, lp)] if lp is not None else []
-        ok = lp is not None and _plain_iter(lp.iter) and bool(its) and \
-            all('fieldset_names' in t and 'fieldset_hashes' in t for t in its)
-        ctx.ob('C03-R5', fi, 'every stored field-set hash is compared', ok,
-               norm(lp.iter) if ok else 'the gate does not visit every (name, hash) pair of the file',
-               line=(lp.lineno if lp else fi.node.lineno), nontrivial=False)
+        open_rets = [n for n in rets if not ins[n.id]]
+        if not open_rets:
+            where = '; '.join(f'{f_.name}:{ln} over {t}' for f_, ln, t in acc.verified) or 'a test that implies it'
+            ctx.ob('C03-R5', fi, 'digest comparison refuses a mismatch', True,
+                   f'each pair\'s digests are found equal, or the force flag set, or the open is refused ({where})')
+            ctx.ob('C03-R5', fi, 'NcFiles returned only after the digest gate', True,
+                   f'{len(rets)} return(s); the gate has been passed on every way there, handlers included')
+            ctx.ob('C03-R5', fi, 'every stored field-set hash is compared', True,
+                   'the gate runs over the stored names and hashes as a whole', nontrivial=False)
+            continue
+        bad = open_rets[0]
+        # digest comparisons that no analysed construct accounts for
+        loose = []
+        for f in _callee_closure(prog, fi, 3):
+            fl_ = gate.fl if f is fi else Flow(prog, f)
+            for x in walk_no_nested(f.node):
+                if isinstance(x, ast.Compare) and _site(x) not in acc.seen_compare and (
+                        _mentions_digest(x) or any(_mentions_digest(a) for a in fl_.alts(x, stmt_of(x)))):
+                    loose.append((f, x))
+        if acc.faults:
+            f_, ln, why = acc.faults[0]
+            ctx.ob('C03-R5', f_, 'digest comparison refuses a mismatch', False, f'(gate of {fi.name}) {why}', line=ln)
+        elif acc.partial:
+            f_, ln, why = acc.partial[0]
+            ctx.ob('C03-R5', f_, 'every stored field-set hash is compared', False, f'(gate of {fi.name}) {why}', line=ln)
+        elif acc.unknown:
+            f_, ln, why = acc.unknown[0]
+            ctx.undecided('C03-R5', fi, 'digest gate', f'{f_.name}:{ln}: {why}')
+        elif loose:
+            f_, x = loose[0]
+            ctx.undecided('C03-R5', fi, 'digest gate',
+                          f'{f_.name}:{x.lineno}: `{norm(x)[:60]}` compares a digest in a form that is not analysed')
+        elif acc.seen_compare:
+            path = g.find_path(g.entry, bad.id, edge_ok=lambda a, b, lab: not ins.get(b, False))
+            ctx.ob('C03-R5', fi, 'NcFiles returned only after the digest gate', False,
+                   'a path returns the file description without passing the digest comparison', line=bad.line,
+                   path=[g.nodes[i].text() for i in (path or []) if g.nodes[i].stmt is not None][-12:])
+        else:
+            ctx.ob('C03-R5', fi, 'digest comparison refuses a mismatch', False,
+                   'no comparison of the stored digests with the registry\'s on the way to the return: any file '
+                   'opens under any definition', line=bad.line)
 
 
 # ---------------------------------------------------------------- R6 -----
@@ -1862,7 +3044,7 @@ def rule_index_use(ctx, m, arms=None):
                     first = n.slice.elts[0] if isinstance(n.slice, ast.Tuple) else n.slice
                     if norm(first) not in inames:
                         bad.append(n)
-        ctx.floor(f'C03-R6/{role}', n_sub, 4, f'{role} variable subscripts')
+        ctx.floor(f'C03-R6/{role}', n_sub, 1, f'{role} variable subscripts')
         ctx.ob('C03-R6', fi, f'{role}: {n_sub} variable accesses all at [index, …]', not bad,
                'record index used as given' if not bad else
                f'{role} accesses record {norm(bad[0])} instead of the record index it was given',
